@@ -262,3 +262,132 @@ func zzC13Map(ops, lens int) {
 	zzverif.Assert(zzC13Same(t.root, c.root), "the node graph depends only on the surviving content, not on the history")
 	zzverif.Reach("end")
 }
+
+// ---- tries with unloaded (hash) nodes: the state after commit + reopen ----
+
+var (
+	zzC13Store map[byte]node // "node database": hash id -> node
+	zzC13Next  byte
+)
+
+// resolveHash: lookup in the harness node table (the real one reads the node database)
+func zzC13Resolve(t *Trie, n hashNode, prefix []byte) (node, error) {
+	if nd, ok := zzC13Store[n[0]]; ok {
+		return nd, nil
+	}
+	return nil, &MissingNodeError{Path: prefix}
+}
+
+// zzC13Hashify replaces every non-root interior node by a hash reference into the node
+// table, as a trie looks right after Commit and New(root): nothing below the root is loaded.
+func zzC13Hashify(n node, root bool) node {
+	switch x := n.(type) {
+	case *shortNode:
+		c := &shortNode{Key: x.Key, Val: zzC13Hashify(x.Val, false)}
+		if root {
+			return c
+		}
+		return zzC13Ref(c)
+	case *fullNode:
+		c := &fullNode{}
+		for i, ch := range x.Children {
+			if ch != nil {
+				c.Children[i] = zzC13Hashify(ch, false)
+			}
+		}
+		if root {
+			return c
+		}
+		return zzC13Ref(c)
+	}
+	return n
+}
+
+func zzC13Ref(n node) node {
+	zzC13Next++
+	zzC13Store[zzC13Next] = n
+	h := make(hashNode, 32)
+	h[0] = zzC13Next
+	return h
+}
+
+// zzC13SameR: structural equality modulo loading (hash references are followed).
+func zzC13SameR(a, b node) bool {
+	if h, ok := a.(hashNode); ok {
+		a = zzC13Store[h[0]]
+	}
+	if h, ok := b.(hashNode); ok {
+		b = zzC13Store[h[0]]
+	}
+	switch x := a.(type) {
+	case nil:
+		return b == nil
+	case valueNode:
+		y, ok := b.(valueNode)
+		return ok && bytes.Equal(x, y)
+	case *shortNode:
+		y, ok := b.(*shortNode)
+		return ok && bytes.Equal(x.Key, y.Key) && zzC13SameR(x.Val, y.Val)
+	case *fullNode:
+		y, ok := b.(*fullNode)
+		if !ok {
+			return false
+		}
+		for i := range x.Children {
+			if !zzC13SameR(x.Children[i], y.Children[i]) {
+				return false
+			}
+		}
+		return true
+	}
+	return false
+}
+
+// zzH_C13_reopened: a trie built from symbolic pairs is "committed and reopened" (every
+// node below the root unloaded); one more update or delete then leaves exactly the
+// canonical trie of the surviving content, and lookups agree with the model.
+//
+//verif:replace (*$M/trie.Trie).resolveHash zzC13Resolve
+func zzH_C13_reopened() {
+	zzC13Store, zzC13Next = map[byte]node{}, 0
+	ops := zzverif.Bound("reopenedOps", 2, 3)
+	t := &Trie{db: new(Database)}
+	var model []zzC13KV
+	g := &zzC13Keys{lens: 1}
+	for i := 0; i < ops; i++ {
+		k := g.next("key")
+		v := []byte{zzverif.U8("val")}
+		t.TryUpdate(k, v)
+		model = append(model, zzC13KV{k, v})
+	}
+	t.root = zzC13Hashify(t.root, true)
+	zzverif.Reach("reopened")
+	// one more operation on the reopened trie
+	k := g.next("opkey")
+	var v []byte
+	if !zzverif.Bool("delete") {
+		v = []byte{zzverif.U8("opval")}
+	}
+	if err := t.TryUpdate(k, v); err != nil {
+		zzverif.Assert(false, "every referenced node is in the node table")
+	}
+	model = append(model, zzC13KV{k, v})
+	q := g.next("query")
+	got, err := t.TryGet(q)
+	want := zzC13ModelGet(model, q)
+	zzverif.Assert(err == nil && bytes.Equal(got, want) && (got == nil) == (want == nil), "lookup on the reopened trie returns exactly the surviving value")
+	c := &Trie{db: new(Database)}
+	for i, e := range model {
+		last := true
+		for _, later := range model[i+1:] {
+			if bytes.Equal(later.k, e.k) {
+				last = false
+			}
+		}
+		if last && e.v != nil {
+			c.TryUpdate(e.k, e.v)
+		}
+	}
+	zzverif.Assert(zzC13SameR(t.root, c.root), "after commit and reopen an update or delete still yields the canonical trie of the content")
+	zzverif.Reach("end")
+}
